@@ -53,9 +53,14 @@ var tensorContracts = map[string]contract{}
 func init() {
 	T := pkgTensor
 	arith := contract{res: fresh(2), opts: true}
-	for _, n := range []string{"Add", "Sub", "Mul", "Div", "MatMul", "Gt", "Gte", "Lt", "Lte", "ElEq", "ElNe", "Abs", "Neg", "Exp", "Tanh", "Sum", "Sqrt", "Log", "Pow", "Max", "Min", "SoftMax", "LogSoftMax", "Dot", "Sign", "Square", "Clamp", "MaxBetween", "MinBetween"} {
+	// audited against gorgonia v0.9.24: these read their operands and allocate the result unless a
+	// reuse/unsafe/incr option is given. Anything else (Dot, Sqrt, Pow, ...) is deliberately absent or
+	// has its own entry: an unlisted function that receives a non-owned tensor makes the check undecided.
+	for _, n := range []string{"Add", "Sub", "Mul", "Div", "MatMul", "Gt", "Gte", "Lt", "Lte", "ElEq", "Abs", "Neg", "Exp", "Tanh", "Sum", "SoftMax", "LogSoftMax", "MaxBetween", "MinBetween"} {
 		tensorContracts[T+"."+n] = arith
 	}
+	// Dot(vector, matrix) transposes its second operand in place (b.T(); defer b.UT()): a header write
+	tensorContracts[T+".Dot"] = contract{mutH: []int{1}, res: fresh(2), opts: true}
 	tensorContracts[T+".New"] = contract{res: []resSpec{{kind: rNewOpt}}}
 	tensorContracts[T+".NewDense"] = contract{res: []resSpec{{kind: rNewOpt}}}
 	tensorContracts[T+".WithShape"] = contract{res: fresh(1)}
